@@ -977,7 +977,7 @@ class EffectDomain(DefaultDomain):
             return out
         if d == "sys.exc_info" and not call.args and d not in self.results:
             # the exception being handled in this frame: (type, value, traceback) tied to that exception
-            e_ = st.get(fr.local("<handling>"), None)
+            e_ = st.get("<handling>", None)
             if e_ is not None:
                 return [val(exc_info_of(e_), st)]
         if d == "type" and len(call.args) == 1 and not call.keywords:
@@ -995,6 +995,12 @@ class EffectDomain(DefaultDomain):
         if d == "isinstance" and len(call.args) == 2 and not call.keywords:
             # an abstract exception ("exc", ClassName): decided by name against exception classes named in the test
             tnames = [(dotted(t) or "").split(".")[-1] for t in (call.args[1].elts if isinstance(call.args[1], ast.Tuple) else [call.args[1]])]
+            if all(tnames) and any(st.has(fr.local(n_)) for n_ in tnames):
+                # the class comes from a variable: exception classes travel as ("excclass", Name)
+                got = [r for r in interp.eval(call.args[1], st, fr) if r.kind == "val"]
+                vals_ = got[0].value if len(got) == 1 else None
+                cand = list(vals_[1:]) if isinstance(vals_, tuple) and vals_[:1] == ("tuple",) else [vals_]
+                tnames = [v[1].split(".")[-1] for v in cand] if all(isinstance(v, tuple) and v[:1] in (("excclass",), ("ctorref",)) for v in cand) else [None]
             if all(tnames):
                 out = []
                 known = True
